@@ -1,0 +1,8 @@
+//go:build verif
+
+package sharded
+
+// VerifFields exposes the derived private fields of the shard id provider to the verification harness.
+func (sp *shardIDProvider) VerifFields() (maskHigh uint32, maskLow uint32, bytesNeeded int) {
+	return sp.maskHigh, sp.maskLow, sp.bytesNeeded
+}
